@@ -2486,7 +2486,10 @@ def gen_line(rng, fens, searching=False):
     """grammar-directed UCI line with boundary / malformed arguments"""
     nums = ["0", "1", "-1", "2", "40", "41", "100", "250", "1000000", "-1000000", "99999999999999999999", "9223372036854775807", "-9223372036854775808", "", "x", "1.5", "+3", "0x10", " 3", "3 "]
     if searching:
-        return rng.choice(["isready", "setoption name currmoveLogInterval value " + rng.choice(["10", "1000", "10000000", "50"]), "xyzzy", "", "  ", "setoption", "setoption name x value 1", "isready ", "help?"])
+        # while a search runs only stop / isready / setoption / quit / unrecognised text may be sent - but setoption
+        # with ANY value, in particular values outside the declared range (the search reads the option on every node)
+        return rng.choice(["isready", "setoption name currmoveLogInterval value " + rng.choice(["10", "1000", "10000000", "50", "0", "-1", "1", "9", "10000001", "99999999999999999999", "x", ""]),
+                           "setoption name currmoveLogInterval value 0", "xyzzy", "", "  ", "setoption", "setoption name x value 1", "isready ", "help?"])
     r = rng.random()
     if r < 0.12:
         return rng.choice(["uci", "isready", "ucinewgame", "help", "tostr", "eval", "stop", "", " ", "quitx", "perft", "tperft", "go x", "position", "position  ", "setoption"])
@@ -2609,6 +2612,10 @@ def check_C17(ctx):
             ctx.violation("uci-crash:" + lb.hex(), {"kind": "history", "lines": ctxlines, "hex": lb.hex(), "what": "input line crashes the engine: " + (r or "")[:160]})
     # (b) fixed boundary scripts and random sessions with searches, against the real binary
     scripts = [[(l, []) for l in sc if l != "<wait>"] for sc in FIXED_SCRIPTS]
+    # option changes arriving while a search is running (legal at any time per UCI), incl. out-of-range values
+    for v in ("0", "-7", "1", "10000001", "x", "10"):
+        scripts.append([("position startpos", []), ("go infinite", [f"setoption name currmoveLogInterval value {v}", "isready"])])
+        scripts.append([(f"position {KIWI_FEN}", []), ("go depth 40", ["isready", f"setoption name currmoveLogInterval value {v}"]), ("go depth 2", [])])
     n_sess = ctx.size(60, 3000)
     for _ in range(n_sess):
         sc = []
@@ -2630,7 +2637,11 @@ def check_C17(ctx):
         if not ok:
             small = shrink_script(sc) if len(ctx.violations) < 3 else sc
             key = "uci-session:" + "|".join((l if isinstance(l, str) else l.hex()) for l, _ in small)
-            ctx.violation(key, {"kind": "history", "lines": [(l if isinstance(l, str) else "hex:" + l.hex()) for l, _ in small], "what": why,
+            flat = []
+            for l, during in small:
+                flat.append(l if isinstance(l, str) else "hex:" + l.hex())
+                flat += ["<while that search runs> " + (d if isinstance(d, str) else "hex:" + d.hex()) for d in during]
+            ctx.violation(key, {"kind": "history", "lines": flat, "what": why,
                                 "transcript_of_the_original_session": [str(x)[:200] for x in sent][-60:]})
         if len(ctx.samples) < 3:
             ctx.sample({"script": sent[:10], "ok": ok})
